@@ -84,10 +84,11 @@ def idx_of(check, i):
 
 EVIDENCE_TEXT = {
     "C09": {
-        "rule": "each run = 1-3 objects of one kind (data containers indexed / xy / histogram incl. manual bin heights with up to 4 sources simple / matrix cov / matrix "
+        "rule": "each run = 1-3 objects of one kind (data containers indexed / xy / histogram incl. manual bin heights / unbinned, with up to 4 sources simple / matrix cov / matrix "
                 "cor, abs / rel, enabled / disabled, labels; fits xy / indexed / histogram / unbinned with sources incl. model-referenced ones, simple and matrix "
-                "constraints abs / rel, fixed / limited parameters, fitted or not, with or without asymmetric errors; simple and matrix parameter constraints; parametric "
-                "models) saved with to_file onto a pool of 2 paths of the simulated file system (write-write-read on one path), reloaded through the object's own class "
+                "constraints abs / rel, fixed / limited parameters, values set through set_all_parameter_values and the keyword form, fitted or not, with or without asymmetric errors, custom fits with user cost functions, cost objects "
+                "with add_determinant_cost=False (open finding F-C09-13), model functions as def-source, as library names and as look-alikes of library entries; simple and matrix "
+                "parameter constraints; parametric models incl. unbinned; model-function objects) saved with to_file onto a pool of 2 paths of the simulated file system (write-write-read on one path), reloaded through the object's own class "
                 "(and the base class), compared under an identical read script; second cycle from_file -> to_file -> from_file compared document by document (1e-12); "
                 "save_state / load_state; every fourth group of runs injects I/O faults (ENOSPC after k characters, open failure, short read, failing truncate). "
                 "non-trivial = at least one completed save/load cycle.",
@@ -101,8 +102,80 @@ EVIDENCE_TEXT = {
         "rule": "each run = 1-3 member fits (xy / indexed with chi2-type costs, histogram and unbinned with nll; overlapping parameter names) + one MultiFit, then "
                 "a seeded list of operations issued at the multi-fit OR at a member: set / set_all / fix / release, add_error(fits = i | [i, j] | 'all'), member-level "
                 "and multi-level constraints, do_fit on the multi-fit, reads on every party, gc. After EVERY operation: (I1) every shared parameter holds one common "
-                "value in the multi-fit and in all members (==); (I2) multi cost == sum of the costs the members report, or, with a source shared on the y axis, the "
-                "closed-form joint chi2 whose covariance carries the shared matrix in every diagonal and off-diagonal block between the sharing members; (I3) a "
+                "value in the multi-fit and in all members (==); (I2) multi cost == sum of the costs the members report, or, with a shared source (x or y axis, simple or covariance matrix, absolute or relative to identical member data), the "
+                "closed-form joint chi2 with V = Vy + Vx o (f'f'^T) on the concatenated data, the shared matrix in every diagonal and off-diagonal block between the sharing "
+                "members; members may have a history before the MultiFit is built (set / fix / limit / constraint), own x sources, model-referenced sources, no uncertainty at "
+                "all, add_determinant_cost=False, and models with other parameter names and orders; (I3) a "
+                "multi-fit of one fit reproduces that fit's do_fit; (I4) after multi.do_fit members report the sub-blocks of the multi-fit result (==). "
+                "non-trivial = >=2 operations after construction.",
+        "states_measure": "distinct (last operation, #shared sources, fitted?, fixed set, stale bits of the multi-fit graph) tuples",
+        "assumptions": ["shared sources between xy / indexed members of equal size; data-relative ones only between members with identical data (kafe2 demands it)",
+                        "after a fix / release issued on a MEMBER the counting oracles and do_fit are switched off (how a member's fixed status propagates is unspecified); I1 and the cost invariants stay",
+                        "cost invariants are skipped while a member total or the joint covariance is outside the PD, cond<=1e7 domain",
+                        "model-relative member sources are kept out of the joint closed form (generated as absolute)"],
+    },
+    "C08": {
+        "level": "exploration",
+        "legs": [("query", "C08")],
+        "quick": {"runs": 2400, "wall": 70},
+        "thorough": {"runs": 60000, "wall": 1800},
+    },
+    "C11": {
+        "level": "exploration",
+        "legs": [("multi", "C11")],
+        "quick": {"runs": 3000, "wall": 75},
+        "thorough": {"runs": 100000, "wall": 1800},
+    },
+    "C09": {
+        "level": "exploration",
+        "legs": [("io", "C09")],
+        "quick": {"runs": 4000, "wall": 75},
+        "thorough": {"runs": 100000, "wall": 1800},
+    },
+}
+
+
+def leg_of(check, i):
+    legs = CHECKS[check]["legs"]
+    # a function of the run index alone (not of the worker count); the i // 16 term rotates the legs over the statically
+    # strided workers so that a slow leg does not sit on the same few workers
+    return legs[(i + i // 16) % len(legs)]
+
+
+def idx_of(check, i):
+    """Structural index handed to the machine's generator (selects fit type / host / regime classes by idx % k):
+    counts the runs of that machine, so that every class is reached on every leg, and is decorrelated from the worker."""
+    legs = CHECKS[check]["legs"]
+    j = i + i // 16
+    leg = j % len(legs)
+    same = [k for k, l in enumerate(legs) if l[0] == legs[leg][0]]
+    return (j // len(legs)) * len(same) + same.index(leg)
+
+
+EVIDENCE_TEXT = {
+    "C09": {
+        "rule": "each run = 1-3 objects of one kind (data containers indexed / xy / histogram incl. manual bin heights / unbinned, with up to 4 sources simple / matrix cov / matrix "
+                "cor, abs / rel, enabled / disabled, labels; fits xy / indexed / histogram / unbinned with sources incl. model-referenced ones, simple and matrix "
+                "constraints abs / rel, fixed / limited parameters, values set through set_all_parameter_values and the keyword form, fitted or not, with or without asymmetric errors, custom fits with user cost functions, cost objects "
+                "with add_determinant_cost=False (open finding F-C09-13), model functions as def-source, as library names and as look-alikes of library entries; simple and matrix "
+                "parameter constraints; parametric models incl. unbinned; model-function objects) saved with to_file onto a pool of 2 paths of the simulated file system (write-write-read on one path), reloaded through the object's own class "
+                "(and the base class), compared under an identical read script; second cycle from_file -> to_file -> from_file compared document by document (1e-12); "
+                "save_state / load_state; every fourth group of runs injects I/O faults (ENOSPC after k characters, open failure, short read, failing truncate). "
+                "non-trivial = at least one completed save/load cycle.",
+        "states_measure": "distinct (object kind, sub-kind, #files, fault?) tuples - the explored dimension is the object configuration and the write history on a path",
+        "assumptions": ["acknowledged to_file => readable and equivalent; failed to_file (ENOSPC / open error) => file unconstrained, object unchanged",
+                        "failing truncate and short reads are report-only (the writer deliberately ignores a failing truncate; a prefix of a YAML document can be a different valid document)",
+                        "byte flips in stored files are not injected (no checksum, no oracle)", "first cycle compared at rtol 1e-7 (YAML matrix text), second at 1e-12",
+                        "model functions are self-contained numpy functions (ksim/iolib.py); histogram bin evaluation by name only"],
+    },
+    "C11": {
+        "rule": "each run = 1-3 member fits (xy / indexed with chi2-type costs, histogram and unbinned with nll; overlapping parameter names) + one MultiFit, then "
+                "a seeded list of operations issued at the multi-fit OR at a member: set / set_all / fix / release, add_error(fits = i | [i, j] | 'all'), member-level "
+                "and multi-level constraints, do_fit on the multi-fit, reads on every party, gc. After EVERY operation: (I1) every shared parameter holds one common "
+                "value in the multi-fit and in all members (==); (I2) multi cost == sum of the costs the members report, or, with a shared source (x or y axis, simple or covariance matrix, absolute or relative to identical member data), the "
+                "closed-form joint chi2 with V = Vy + Vx o (f'f'^T) on the concatenated data, the shared matrix in every diagonal and off-diagonal block between the sharing "
+                "members; members may have a history before the MultiFit is built (set / fix / limit / constraint), own x sources, model-referenced sources, no uncertainty at "
+                "all, add_determinant_cost=False, and models with other parameter names and orders; (I3) a "
                 "multi-fit of one fit reproduces that fit's do_fit; (I4) after multi.do_fit members report the sub-blocks of the multi-fit result (==). "
                 "non-trivial = >=2 operations after construction.",
         "states_measure": "distinct (last operation, #shared sources, fitted?, fixed set, stale bits of the multi-fit graph) tuples",
@@ -115,22 +188,28 @@ EVIDENCE_TEXT = {
         "rule": "each run = one fitted problem (xy / indexed / histogram / unbinned stratified; iminuit and scipy; sources incl. x-errors, correlations and "
                 "model-referenced ones; optional constraint, fixed parameter, wide limits; optimum interior) followed by a seeded sequence with repetition of post-fit "
                 "queries: parameter_cov_mat, parameter_cor_mat, parameter_errors, minimizer hessian/hessian_inv, asymmetric_parameter_errors, _fitter.profile "
-                "(low/high/sigma/cl/size/subtract_min/arrows variants), _fitter.contour, ContoursProfiler.get_profile/get_contours, XYFit.error_band, report, "
-                "get_result_dict (with and without asymmetric errors), gc. After EVERY query: parameter values / cost / symmetric uncertainties / did_fit unchanged "
-                "up to the minimizer tolerance, fixed parameters bitwise, minimizer copy == graph copy (1e-9), and the same query asked twice in a row gives the same "
+                "(low/high/sigma/cl/size/subtract_min/arrows variants incl. requests kafe2 rejects: range on the wrong side of the optimum, cl > 1), _fitter.contour, "
+                "ContoursProfiler.get_profile/get_contours, XYFit.error_band, report, get_result_dict (with and without asymmetric errors), to_file (both), "
+                "eval_model_function at other support points, Plot (thorough tier), gc. After EVERY query (also one that raised): parameter values / cost / symmetric uncertainties / did_fit unchanged "
+                "up to the minimizer tolerance, fixed parameters bitwise, minimizer copy == graph copy (1e-9), and the same query asked again (directly or later in the sequence) gives the same "
                 "answer. non-trivial = a converged well-posed fit and >=2 queries.",
         "states_measure": "distinct (query kind, stale/frozen bits of all graph nodes, fixed set) tuples after queries",
         "assumptions": ["ill-posed fits (uncertainty larger than |value|+1, non-converged, optimum on a limit) are discarded before any oracle is consulted",
                         "profiles / contours / asymmetric errors are skipped for the iterative treatment with dynamic errors (kafe2 documents that it switches algorithm)",
-                        "to_file is exercised by M-IO; plots are not exercised (matplotlib would dominate the run time)"],
+                        "a scipy fit whose result is not a fixed point of minimize() on a sibling fit is discarded (convergence of do_fit is C06's subject)",
+                        "scipy: contours and profiles of single-parameter / limited fits in the thorough tier only; contours on Poisson likelihoods never (> 5 min per contour observed)",
+                        "open finding F-C08-6 (non-converged mnprofile scan point) matched by a semantic tag"],
     },
     "C19": {
-        "rule": "hosts: fits (xy/indexed/histogram/unbinned), data containers (indexed/xy), histogram containers, graphs. A valid base history (mutators + reads) is "
+        "rule": "hosts: fits (xy/indexed/histogram/unbinned), data containers (indexed/xy), histogram containers, graphs, multi-fits of two Gaussian members. A valid base history (mutators + reads) is "
                 "generated; in the enumerated regime (every second run, base length <= 8) EVERY applicable catalogue kind R1-R10 is inserted at EVERY position, one "
                 "fault per derived history (kinds x positions exhaustive per base history, counted as derived_histories); in the sampled regime longer histories "
                 "get 1-3 faults at seeded positions. Each malformed call must raise; a lock-step twin executes the same history without the faults and every "
                 "subsequent read must agree (rtol 1e-12; tolerance tier after a final do_fit); histogram containers and graphs must still accept a valid edit "
-                "afterwards. Constructor-time kinds (R7 reserved argument, R8 Poisson data, R9 unsorted edges) are checked for 'raises'. evaluations = base histories; "
+                "afterwards. The catalogue contains small-magnitude variants (-1e-12, 1+1e-9, 1e-10-scale and 1e-7-asymmetric matrices), partial application (valid "
+                "keyword first), wrong sizes / axes / member indices through MultiFit, and a cycle that closes through a second Nexus with a same-named node. "
+                "Constructor-time kinds (R7: EVERY reserved name of the fit class, model function as plain function and as model-function object; R8 Poisson data; "
+                "R9 unsorted edges) are checked for 'raises'. evaluations = base histories; "
                 "distinct = distinct event-log digests.",
         "states_measure": "distinct (host, catalogue kind, call, position, history length) tuples exercised",
         "assumptions": ["base histories are sampled, the (kind x position) insertion per base history is exhaustive in the enumerated regime",
@@ -140,23 +219,28 @@ EVIDENCE_TEXT = {
     "C03": {
         "rule": "each run = one real fit (xy / indexed / histogram / unbinned stratified; iminuit and scipy; nonlinear and iterative dynamic errors) "
                 "executing a seeded history of public mutators (sources via fit or fit.data_container, disable/enable, constraints, set/fix/release/limit, "
-                "data replacement, parameter_errors setter, do_fit with optional simulated clock jump, gc, scripted name collisions) interleaved with reads of "
+                "data replacement incl. containers that bring their own sources, parameter_errors setter, do_fit with optional simulated clock jump and optionally "
+                "followed by fix / release / limit + covariance-type reads, gc, scripted name collisions) interleaved with reads of "
                 "every public read-only property found by introspection (read density 0.3-3 per mutator, repeated reads, reads right before each mutator), "
                 "get_result_dict and report. Every read is judged by a twin: class A (functions of configuration and current parameters) against a NEW fit "
                 "that receives the configuration mutators only, is set to the same parameter values and is asked for that observable first (rtol 1e-9); "
                 "class B (minimizer-derived) against a NEW fit that receives all mutators incl. do_fit and no reads (minimizer tolerance tier), while they are "
-                "the results of the last fit. non-trivial = >=3 mutators, >=2 reads after mutators, >=2 distinct cache-state vectors.",
+                "the results of the last fit. A read must not move parameter_values; a move within the minimizer tolerance is accepted only if the graph and the "
+                "minimizer hold the same point afterwards. non-trivial = >=3 mutators, >=2 reads after mutators, >=2 distinct cache-state vectors.",
         "states_measure": "distinct vectors of (stale, frozen) over all graph nodes + container total-cache flags + model stale flag + did_fit + loaded-result flag",
         "assumptions": ["PD well-conditioned totals; reads of uncertainty-dependent observables are skipped while the configuration is outside that domain",
                         "a do_fit that raises or leaves the domain ends the run as discarded", "unlimit only for limited parameters, release only for fixed ones",
                         "data replacement only in histories without model-referenced sources", "object-valued properties (data_container, model_function, ...) are listed as not compared",
-                        "asymmetric errors are read only with the iminuit backend in this machine (M-QUERY covers scipy)"],
+                        "scipy asymmetric errors are read only for unlimited fits with >= 2 free parameters and the nonlinear algorithm (elsewhere: tens of seconds per call; M-QUERY thorough tier)",
+                        "histogram fits: model-relative sources share open finding F-C01-1 with the twin, so only their history dimension is judged here"],
     },
     "C10": {
         "rule": "fresh-replay scripts as in C01 with the counting events emphasised (fix, release, fix again, fix(name, value), simple and n-parameter "
-                "matrix constraints, do_fit before the observation in a third of the runs); observed first on a fresh fit: ndf (integer ==), "
+                "matrix constraints, calls kafe2 rejects (unknown names) inside the history, do_fit before the observation in a third of the runs - then the formulas "
+                "are checked at the fitted point as well); observed first on a fresh fit: ndf (integer ==), "
                 "goodness_of_fit, chi2_probability, result dict ndf and gof/ndf, against the counting model and the closed forms "
-                "(GoF = cost - saturated cost without determinant; probability = chi2.sf(cost without determinant, ndf)). Multi-fit legs are added by M-MULTI. "
+                "(GoF = cost - saturated cost without determinant; probability = chi2.sf(cost without determinant, ndf)). Multi-fit legs (1/4 of the runs) are added by M-MULTI: ndf, goodness of fit (also with shared sources) and chi2 probability are read at the "
+                "end of every history. "
                 "non-trivial = >=1 probe in the domain and >=4 ops; distinct = distinct event-log digests.",
         "states_measure": "distinct declared configurations (as C01)",
         "assumptions": ["domain restrictions of C01", "Gaussian-approximation GoF additionally needs V+diag(data) positive definite (saturated point)",
@@ -165,10 +249,11 @@ EVIDENCE_TEXT = {
     },
     "C01": {
         "rule": "each run = fit type (xy/indexed/histogram/unbinned, stratified) x built-in cost identifier x data set x model family + a seeded "
-                "script of mutators only (sources simple/matrix, abs/rel, data/model reference, x/y axis, correlations, via the fit or via "
+                "script of mutators, in 30% of the runs interleaved with reads (sources simple/matrix, abs/rel, data/model reference, x/y axis, correlations, via the fit or via "
                 "fit.data_container, pre-loaded containers, disable/enable, constraints of all four forms, set/fix/limit, gc, scripted name collisions; "
-                "special orders: model-referenced source first / only, all disabled but one, source after parameters moved). For each of 2-5 probe points a "
-                "FRESH fit replays the script, set_all_parameter_values(p), and cost_function_value is read first and compared with the closed-form "
+                "special orders: model-referenced source first / only, all disabled but one, source after parameters moved, data replaced by a container with own "
+                "sources on fits with and without uncertainties, parameters moved while a source is disabled; cost objects with add_determinant_cost=False). For each of 2-5 probe points a "
+                "FRESH fit replays the script, set_all_parameter_values(p) (skipped if the script has already moved to p), and cost_function_value is compared with the closed-form "
                 "-2lnL; sibling fresh replays read total_cov_mat / total_error / model first. non-trivial = >=1 probe in the domain and >=4 ops; "
                 "distinct = distinct event-log digests. The ranges 'all data sets x all model functions' are sampled by the generator (property-based "
                 "sampling, not schedule search).",
@@ -182,7 +267,8 @@ EVIDENCE_TEXT = {
         "rule": "each run = one container (indexed / xy / histogram / indexed-, xy-, histogram-parametric-model; kinds stratified over run "
                 "index) + seeded op list of add_error / add_matrix_error (cov | cor+err, abs | rel, scalar | vector, corr in {0,.3,.75,1}, axis as "
                 "0/1/'x'/'y'), disable / enable, value changes (data, x, y, fill, rebin, model parameters, model x), reads (err, cov_mat, cor_mat, "
-                "cov_mat_inverse, total error object), gc and scripted name collisions; reference = list of sources -> sum (sigma sigma^T) o rho. "
+                "cov_mat_inverse, total error object; covariance and inverse read at the end of every run), gc and scripted name collisions; 12% of the runs at the 1e-5 scale "
+                "('units'); reference = list of sources -> sum (sigma sigma^T) o rho. "
                 "non-trivial = >=3 mutators, >=1 source, >=1 read after a mutator; distinct = distinct event-log digests among those.",
         "states_measure": "distinct (kind, total cached?, per-source (enabled, relative, type), model stale?, pending entries?) tuples",
         "assumptions": ["matrix sources are generated symmetric PSD, correlation matrices valid", "UnbinnedContainer rejects sources by design and is not a host",
@@ -192,15 +278,18 @@ EVIDENCE_TEXT = {
         "rule": "each run = seeded constructor variant (n_bins+range | edges | inner edges+range | with fill_data) + seeded op list of "
                 "fill batches (incl. empty, scalars, duplicates, values exactly on first/inner/last edges, far outside), reads of "
                 "data/underflow/overflow/n_entries/raw_data/edges in any order, rebins (non-uniform, repeated edges, other bin count), "
-                "optional final set_bins read-back; reference = multiset + half-open interval counting. non-trivial = >=3 mutators, "
+                "rebins that kafe2 rejects (edges not ascending) inside the history, optional final set_bins read-back; reference = multiset + half-open interval counting. non-trivial = >=3 mutators, "
                 ">=1 read after a mutator, >=1 entry; distinct = distinct event-log digests among those.",
         "states_measure": "distinct (processed?, unprocessed?, manual?, n_bins) tuples",
         "assumptions": ["finite entries only", "no fault kind applies to an in-memory container: the explored dimension is the history (batching, read placement, rebins)",
+                        "an operation that does not return within 20 s of wall time is reported as oracle=no-return (runs take milliseconds)",
                         "set_bins is only read back; that fill/rebin are refused afterwards is kafe2's documented choice"],
     },
     "C04": {
         "rule": "each run = seeded swarm config + seeded op list (graph construction, assignments, reads, freeze/unfreeze, "
-                "replacements, element assignment, dependency additions, drops+gc, armed function failures) executed on real "
+                "replacements, element assignment incl. negative indices, dependency additions incl. lists with a late cycle-closing entry (history continues after the "
+                "rejection in Nexus mode), named replacement / add_function / add_alias, Empty placeholders created by add_function and filled with replace_if_empty, "
+                "drops+gc, armed function failures) executed on real "
                 "kafe2 nexus nodes and on the from-scratch reference evaluator. non-trivial = >=3 mutators, >=1 read after a "
                 "mutator and >=2 distinct (stale,frozen,edges) state vectors; distinct = distinct event-log digests among those.",
         "states_measure": "distinct tuples of (node kind, stale, frozen) over all nodes + edge lists",
@@ -208,6 +297,8 @@ EVIDENCE_TEXT = {
             "freeze is generated as read-then-freeze (the only unambiguous meaning of 'the value it had when it was frozen')",
             "Parameter nodes are never frozen; add_dependency targets are Function/Alias nodes",
             "call-count bound is applied to successful evaluations; a failed evaluation does not count as 'last evaluation'",
+            "when several inputs fail, the exception type of any failing node below the one read is accepted (evaluation order is not part of the statement)",
+            "an operation that does not return within 20 s of wall time is reported as oracle=no-return (runs take milliseconds)",
             "sampling, not enumeration: a clean batch is evidence, not proof",
         ],
     },
